@@ -27,13 +27,16 @@ static const bool kTicks = true;
 static std::atomic<uint64_t> gTick(1);
 static inline uint64_t tick() { return kTicks ? gTick.fetch_add(1, std::memory_order_seq_cst) : 0; }
 
-struct Interval { uint64_t a, b; int kind; bool result; long long elapsedUs, wantUs; };
+struct Interval { uint64_t a, b; int kind; bool result; long long elapsedUs, wantUs; long long wa, wb; /* wall clock (us) just before / just after */ };
+static inline long long nowUs() { return std::chrono::duration_cast<std::chrono::microseconds>(std::chrono::steady_clock::now().time_since_epoch()).count(); }
 
 struct Shared
 {
 	std::atomic<int> state[MAXEV];       // 0 none, 1 enqueued, 2 dispatched
 	std::atomic<uint64_t> enqStart[MAXEV];
 	std::atomic<uint64_t> doneLate[MAXEV]; // tick after the processing call that dispatched it returned
+	std::atomic<uint64_t> enqDone[MAXEV];  // tick after its enqueue call returned (0: not yet)
+	std::atomic<uint64_t> consStart[MAXEV]; // tick at the start of its listener call (~0: not yet)
 	std::atomic<int> dispatched, enqueued;
 	std::atomic<bool> stop, aborting, pollStop;
 	std::atomic<long> polls, listenerFailures;
@@ -43,7 +46,7 @@ struct Shared
 	std::vector<Interval> procs[MAXTHREADS]; // processing calls (they raise the "in dispatch" counter even when they find nothing)
 	std::vector<int> batch[MAXTHREADS];
 	void reset() {
-		for(int i = 0; i < MAXEV; ++i) { state[i].store(0, std::memory_order_relaxed); enqStart[i].store(0, std::memory_order_relaxed); doneLate[i].store(~0ULL, std::memory_order_relaxed); }
+		for(int i = 0; i < MAXEV; ++i) { state[i].store(0, std::memory_order_relaxed); enqStart[i].store(0, std::memory_order_relaxed); doneLate[i].store(~0ULL, std::memory_order_relaxed); enqDone[i].store(0, std::memory_order_relaxed); consStart[i].store(~0ULL, std::memory_order_relaxed); }
 		dispatched = 0; enqueued = 0; stop = false; aborting = false; pollStop = false; polls = 0; listenerFailures = 0; enqLeft = 0;
 		for(int i = 0; i < MAXTHREADS; ++i) { waits[i].clear(); dqns[i].clear(); procs[i].clear(); batch[i].clear(); }
 	}
@@ -58,6 +61,7 @@ struct WSink : CallbackSink
 	void onCall(int, const ArgPack & args, MutInts &) override {
 		const long long eid = args.fp[args.n - 1];
 		if(eid < 0 || eid >= MAXEV) { violation("dispatch:bad-argument", "listener received " + num(eid)); return; }
+		S->consStart[eid].store(tick(), std::memory_order_relaxed);
 		int expect = 1;
 		if(! S->state[eid].compare_exchange_strong(expect, 2, std::memory_order_relaxed)) { violation("dispatch:event-dispatched-twice-or-never-enqueued", "event " + num(eid) + " state " + num(expect)); return; }
 		S->dispatched.fetch_add(1, std::memory_order_relaxed);
@@ -78,6 +82,8 @@ struct Scenario
 	bool drainAll;
 	bool enqueuerProcesses;
 	bool throwing;        // listeners fail now and then inside processOne
+	int longPauseUs;      // > 0: pause inside every DisableQueueNotify scope (after its enqueues)
+	int slowDrainUs;      // > 0: a released waiter sleeps this long before it starts draining
 	int poller;          // 0 none, 1 a thread keeps calling processIf with a predicate that declines everything, 2 processUntil that stops at once
 };
 
@@ -134,6 +140,7 @@ struct Runner
 			while(! S->stop.load(std::memory_order_relaxed)) {
 				Interval iv; iv.kind = sc.waitKind[w]; iv.result = true; iv.elapsedUs = 0; iv.wantUs = 0;
 				const std::chrono::steady_clock::time_point t0 = std::chrono::steady_clock::now();
+				iv.wa = nowUs();
 				iv.a = tick();
 				if(iv.kind == 0) q.wait();
 				else {
@@ -142,9 +149,11 @@ struct Runner
 					iv.result = q.waitFor(std::chrono::milliseconds(ms));
 				}
 				iv.b = tick();
+				iv.wb = nowUs();
 				iv.elapsedUs = std::chrono::duration_cast<std::chrono::microseconds>(std::chrono::steady_clock::now() - t0).count();
 				if(S->aborting.load(std::memory_order_seq_cst)) break; // released by the harness, not by the library
 				S->waits[tid % MAXTHREADS].push_back(iv);
+				if(iv.result && sc.slowDrainUs) std::this_thread::sleep_for(std::chrono::microseconds(sc.slowDrainUs)); // a consumer that is slow to start draining
 				if(iv.result) drain(tid);
 			}
 		}
@@ -176,17 +185,20 @@ struct Runner
 				S->enqStart[eid].store(tick(), std::memory_order_relaxed);
 				S->enqueued.fetch_add(1, std::memory_order_relaxed);
 				QTraits<Q>::enqueue(q, eid);
+				S->enqDone[eid].store(tick(), std::memory_order_relaxed);
 			}
-			if(pauseUs) std::this_thread::sleep_for(std::chrono::microseconds(pauseUs));
+			if(pauseUs) std::this_thread::sleep_for(std::chrono::microseconds(sc.longPauseUs ? sc.longPauseUs : pauseUs));
 			return;
 		}
 		Interval iv; iv.kind = depth; iv.result = true; iv.elapsedUs = 0; iv.wantUs = 0;
+		iv.wa = nowUs();
 		{
 			typename QTraits<Q>::Dqn d(&q);
 			iv.a = tick(); // constructed
 			scopes(tid, depth - 1, nEvents, nextEid, pauseUs);
 			iv.b = tick(); // about to be destroyed
 		}
+		iv.wb = nowUs();
 		S->dqns[tid % MAXTHREADS].push_back(iv);
 	}
 
@@ -242,19 +254,35 @@ static void runScenario(uint64_t caseNo, Rng & rng, const char * cfgName)
 	Scenario sc;
 	sc.waiters = 1 + (int)rng.below(3);
 	sc.enqueuers = 1 + (int)rng.below(2);
-	const bool timedScenario = rng.chance(1, 4); // scenarios with short waitFor check the timeout rule; the others check lost wake-ups
+	const bool timedScenario = ctx().mode == "c11" ? true : rng.chance(1, 4); // scenarios with short waitFor check the timeout rule; the others check lost wake-ups
 	for(int w = 0; w < 4; ++w) { sc.waitKind[w] = timedScenario ? 2 : (int)rng.below(2); sc.shortMs[w] = 2 + (int)rng.below(12); }
 	for(int e = 0; e < 3; ++e) { sc.steps[e] = 1 + (int)rng.below(8); for(int s = 0; s < 12; ++s) { sc.plan[e][s] = (uint32_t)rng.next(); if(rng.chance(1, 3)) sc.plan[e][s] &= ~3u; } }
 	sc.drainAll = true;
 	sc.enqueuerProcesses = rng.chance(1, 3);
 	sc.throwing = rng.chance(1, 3);
+	sc.longPauseUs = 0; sc.slowDrainUs = 0;
 	if(sc.enqueuerProcesses) sc.enqueuers = 2;
 	pickWindow(rng);
 	// template aimed at the window of the statement: a waiter re-enters wait() (after draining a plain enqueue) while the
 	// enqueuer is inside a DisableQueueNotify scope that is its LAST notifying action; the waiter is delayed between its
 	// predicate evaluation and its blocking
 	sc.poller = 0;
-	if(! timedScenario && rng.chance(1, 5)) {
+	static const bool c11Mode = ctx().mode == "c11";
+	if(timedScenario && QTraits<Q>::hasDqn && (c11Mode || rng.chance(1, 3))) {
+		// template 4 (the waitFor clause of C11): events are enqueued inside a long DisableQueueNotify scope, 2-3 waiters poll with short
+		// waitFor calls; when the scope ends ONE waiter is notified and is slow to drain, the others are inside a waitFor that began after
+		// the enqueue had returned and that reaches its timeout with the events still pending and no DisableQueueNotify left
+		count("template4_scenarios");
+		sc.enqueuers = 1; sc.enqueuerProcesses = false;
+		sc.waiters = 2 + (int)rng.below(2);
+		for(int w = 0; w < 4; ++w) sc.shortMs[w] = 3 + (int)rng.below(5);
+		sc.steps[0] = 1 + (int)rng.below(2);
+		for(int i = 0; i < sc.steps[0]; ++i) sc.plan[0][i] = (uint32_t)((1 + rng.below(2)) | (rng.below(2) << 2) | (1u << 4));
+		sc.longPauseUs = 12000 + (int)rng.below(8000);
+		sc.slowDrainUs = 15000 + (int)rng.below(10000);
+		sched().mode = 1; sched().pRandom = (int)rng.below(30);
+	}
+	else if(! timedScenario && rng.chance(1, 5)) {
 		// template 3: plain enqueues (each one the only thing that can wake the waiter) while a third thread keeps taking the pending
 		// events out and putting them back (processIf declining everything / processUntil stopping at once).  The enqueuer is delayed
 		// between the two unlocked reads it may make to decide whether to notify.
@@ -420,7 +448,23 @@ static void runScenario(uint64_t caseNo, Rng & rng, const char * cfgName)
 				if(w.kind == 2) { count(w.result ? "waitFor.short.true" : "waitFor.short.timeout"); }
 				else count(w.kind == 0 ? "wait.returned" : "waitFor.long.returned");
 				if(w.kind != 0 && ! w.result && w.elapsedUs + 1000 < w.wantUs) { violation("waitFor:returned-false-before-timeout", "waitFor returned false after " + num(w.elapsedUs) + "us, timeout " + num(w.wantUs) + "us"); break; }
-				if(w.kind != 0 && ! w.result) continue;
+				if(w.kind != 0 && ! w.result) {
+					// (d) C11: a waitFor that times out while no DisableQueueNotify object exists says "nothing pending": every event whose enqueue
+					// had returned before the call began must have been consumed.  The final look at the queue happens after the deadline, so a
+					// DisableQueueNotify excuses the result only if it may have been alive at some moment between (deadline - 1 ms) and the return.
+					int pend = -1;
+					for(int e = 0; e < MAXEV && pend < 0; ++e) {
+						const uint64_t ed = S->enqDone[e].load(std::memory_order_relaxed);
+						if(ed != 0 && ed < w.a && S->consStart[e].load(std::memory_order_relaxed) > w.b) pend = e;
+					}
+					if(pend >= 0) {
+						bool excused = false;
+						for(size_t k = 0; k < dq.size() && ! excused; ++k) if(dq[k].wb >= w.wa + w.wantUs - 1000 && dq[k].wa <= w.wb) excused = true;
+						count(excused ? "waitFor.timeout.with_pending_event.excused_by_DisableQueueNotify" : "waitFor.timeout.with_pending_event.unexcused");
+						if(! excused) { violation("waitFor:timed-out-with-event-pending-and-no-DisableQueueNotify", "waitFor(" + num(w.wantUs / 1000) + "ms) [" + unum(w.a) + "," + unum(w.b) + "] returned false although event " + num(pend) + " had been enqueued before the call began, was not dispatched before it returned, and no DisableQueueNotify object existed from 1 ms before its deadline on"); break; }
+					}
+					continue;
+				}
 				for(size_t k = 0; k < dq.size(); ++k) {
 					if(dq[k].a < w.a && dq[k].b > w.b) { violation("wait:returned-while-DisableQueueNotify-alive-throughout", "wait [" + unum(w.a) + "," + unum(w.b) + "] returned although a DisableQueueNotify object lived over [" + unum(dq[k].a) + "," + unum(dq[k].b) + "]"); break; }
 					if(dq[k].a < w.b && dq[k].b > w.a) ++overlapped;
